@@ -1,15 +1,19 @@
 """C01 — emissions inventory balances (bookkeeping shape, not numbers).
 
 R1  sum over sources (T-AGREE): sum_total_emissions ranges over the whole
-    Species enum; the accumulator receives exactly one `+=` per source
-    parameter, reduced the way that source's values demand; the APU/GSE
+    Species enum; the accumulator (whatever local is stored as the species'
+    result) receives exactly one `+=` per source parameter, reduced the way
+    that source's declared value shape demands (array: np.sum / sum / .sum();
+    per-mode values: .sum() or a sum over .values() / .as_array(); scalar:
+    itself; float() looked through); the APU/GSE
     switches are the ones that gate their computation; the call passes each
     component's `.emissions` to the parameter of the same name; the only write
     to the totals afterwards is `[Species.CO2] += x` with the same x stored as
     lifecycle_co2, under the CO2 and life-cycle switches.
 R2  fuel for exactly those components (T-PAIR): the components whose
     `.emissions` are summed are exactly those whose `.fuel_burn` enters
-    total_fuel_burn, each added in the control region of its computation.
+    total_fuel_burn (as `= a.fuel_burn`, `+= b.fuel_burn` or a sum of such
+    terms), each added in the control region of its computation.
 R3  amount = EI × component fuel (T-PAIR + def-use): per producer, the index
     map, the amount map and the reported fuel are read off the EmissionsSubset
     it returns (whatever the locals are called), and the variable that
@@ -23,26 +27,46 @@ R3  amount = EI × component fuel (T-PAIR + def-use): per producer, the index
     or a local standing for either; the loop may be a statement or a dict
     comprehension passed to `.update` / the constructor.  The returned
     fuel_burn derives from the same F (sum / slice-sum), and zeroing stores
-    into elements of the two maps (however the element is reached) come as
-    index/emission twins over one slice value.  In compute_emissions the array
+    into elements of the two maps come as index/emission twins over one slice
+    value - however the element is reached (`m[k][a:b]`, the value variable of
+    an .items()/.values() loop, a local, the variable of a loop over a literal
+    collection of such elements or of the two maps, itertools.chain of their
+    values) and however the window is spelt (`[:w.start]`, slice(None,
+    w.start), np.s_[…], a named slice or bound, a loop over such; lower 0 /
+    upper len(traj) / None read as open).  In compute_emissions the array
     passed as the trajectory producer's multiplier (through any alias) is
     zeros_like(fuel_mass) with the single store [1:] = fuel_mass[:-1] -
-    fuel_mass[1:].
+    fuel_mass[1:] (or -np.diff(fuel_mass)).
 R4  windows complementary (T-AGREE, finite): for every member of
     ClimbDescentMode exactly one of "trajectory excludes climb/descent" and
     "LTO keeps approach/climb fuel" holds; LTO zeroes exactly approach and
     climb of its per-mode fuel (stores under ThrustMode keys, or a loop over a
     literal / named constant collection of modes); the trajectory's fuel total
-    and its zeroing use one slice.
-R5  speciation identities (T-ALG): NO + NO2 + HONO ≡ 100 % per thrust class as
-    a polynomial identity; the constant shares of GSE NOx given to NO, NO2 and
+    and its zeroing use one slice: the zeroed windows are exactly [:w.start]
+    and [w.stop:] of the slice w whose sum is reported (stores made by a
+    resolved helper on its parameter count as made on what the caller passes).
+    Both sides are evaluated per mode: _trajectory_slice by partial evaluation
+    of its tests (if/elif, guard clauses, match, conditional expression, dict
+    dispatch) down to the slice it returns - "full" = [0 | open, len(traj) |
+    open), "cruise" = [n_climb, len(traj) - n_descent), bounds compared as
+    exact normal forms - and the LTO zeroing stores by the tests that govern
+    them (enclosing ifs, match arms, earlier guard clauses).
+R5  speciation identities (T-ALG): for every member of ThrustMode the NO, NO2
+    and HONO fractions that NOx_speciation() returns add up to 1 as an exact
+    identity over the function's own definitions (locals, nested helpers,
+    lambdas and one-line helpers of the module expanded; ThrustModeValues read
+    per mode from four positional values, a dict keyed by ThrustMode or one
+    number); the constant shares of GSE NOx given to NO, NO2 and
     HONO (written out per species, or rows of a constant table walked by a
     loop; literals or named constants) sum to exactly 1; APU takes its three
     fractions at one thrust mode; SOx = SO2 + SO4 wherever both are set; in
     lto.py, wherever the NOx family is written (helper or producer), NO, NO2
     and HONO are the one stored NOx index times their own fraction of a
-    NOx_speciation() result; BFFM2 multiplies one NOx index by three
-    proportion arrays indexed by one category array.
+    NOx_speciation() result; BFFM2's NO / NO2 / HONO results are its returned
+    NOx index times a per-point array of the species' own fraction (np.array /
+    np.fromiter over `[X.f[c] for c in C]`, or `X.f.broadcast(C)`), all three
+    looked up by one category array.  Stores under constant Species keys are
+    collected whether written out or made by a loop over a constant table.
 R6  memoised mutables: a local bound from a call of a functools.cache'd function
     of the emissions package is not stored into in place unless it was rebound
     to a copy first (the generic form, including results kept in containers
@@ -57,7 +81,8 @@ from fractions import Fraction
 
 from ..algebra import AlgebraError, normal_form, poly_equal
 from ..astutil import (ancestors, is_within, call_name, calls_in, const_value, enclosing_iterations, eval_pred, guards_of, iterated_mapping,
-                       kwarg, local_defs, map_iteration, norm, single_def_value, stmt_of, stores_to, walk_no_nested)
+                       kwarg, local_defs, map_iteration, norm, single_def_value, stmt_of, stores_to, tuple_def_component,
+                       walk_no_nested)
 from ..conform import _inline_env
 
 EM = 'emissions/emission.py'
@@ -73,17 +98,57 @@ def rule_sum(ctx):
     st = m.func('sum_total_emissions')
     ce = m.func('compute_emissions')
     loops = [n for n in walk_no_nested(st.node) if isinstance(n, ast.For)]
-    ok = len(loops) == 1 and norm(loops[0].iter) == 'Species' and norm(loops[0].target) == 'species'
+    im = iterated_mapping(loops[0].iter) if loops else None
+    ok = len(loops) == 1 and im is not None and im[1] == 'keys' and norm(im[0]) == 'Species' and isinstance(loops[0].target, ast.Name)
     ctx.ob('C01-R1', st, f'totals computed for every member of {norm(loops[0].iter) if loops else "?"}', ok,
            'whole Species enum' if ok else 'the total is not formed for every species', line=(loops[0].lineno if loops else 0))
+    if not ok:
+        return {}, None
     lp = loops[0]
-    adds = [n for n in ast.walk(lp) if isinstance(n, ast.AugAssign) and norm(n.target) == 'total']
+    kv = lp.target.id
+    # the accumulator is whatever is stored as the species' result
+    res = [s for t, s, how in stores_to(st.node) if isinstance(t, ast.Subscript) and norm(t.slice) == kv and how == 'assign'
+           and any(x is lp for x in ancestors(s))]
+    acc = res[0].value.id if len(res) == 1 and isinstance(res[0].value, ast.Name) else None
+    if acc is None:
+        ctx.undecided('C01-R1', st, f'<result>[{kv}] = <accumulator>', 'cannot tell which local accumulates the species total')
+    adds = [n for n in ast.walk(lp) if isinstance(n, ast.AugAssign) and norm(n.target) == acc]
     params = st.params
     seen = {}
     for a in adds:
-        src = next((p for p in params if f'{p}[species]' in norm(a.value)), None)
+        src = next((p for p in params if f'{p}[{kv}]' in norm(a.value)), None)
         seen.setdefault(src, []).append(a)
-    want_red = {'trajectory': 'np.sum(trajectory[species])', 'lto': 'lto[species].sum()', 'apu': 'apu[species]', 'gse': 'gse[species]'}
+    shape_of = {}
+    for arg in st.node.args.posonlyargs + st.node.args.args + st.node.args.kwonlyargs:
+        an = norm(arg.annotation) if arg.annotation is not None else ''
+        shape_of[arg.arg] = 'array' if 'ndarray' in an else 'modes' if 'ThrustModeValues' in an else 'scalar' if 'float' in an else None
+    fallback = {'trajectory': 'array', 'lto': 'modes', 'apu': 'scalar', 'gse': 'scalar'}
+    allowed = {'array': {'sum', 'method-sum'}, 'modes': {'method-sum', 'sum-of-values'}, 'scalar': {'itself'}}
+
+    def reduction(e, p):
+        """how the source's value for the species enters: 'itself', 'sum' (np.sum / sum / math.fsum of it), 'method-sum'
+        (its own .sum()), 'sum-of-values' (sum over .values() / .as_array()); None for anything else"""
+        base = f'{p}[{kv}]'
+        while isinstance(e, ast.Call) and call_name(e) == 'float' and len(e.args) == 1 and not e.keywords:
+            e = e.args[0]
+        if norm(e) == base:
+            return 'itself'
+        inner = None
+        if isinstance(e, ast.Call) and call_name(e) in ('np.sum', 'numpy.sum', 'sum', 'math.fsum', 'fsum') and len(e.args) == 1 and not e.keywords:
+            inner, how = e.args[0], 'sum'
+        elif isinstance(e, ast.Call) and isinstance(e.func, ast.Attribute) and e.func.attr == 'sum' and not e.args and not e.keywords:
+            inner, how = e.func.value, 'method-sum'
+        if inner is None:
+            return None
+        if norm(inner) == base:
+            return how
+        while isinstance(inner, ast.Call) and call_name(inner) in ('list', 'tuple') and len(inner.args) == 1:
+            inner = inner.args[0]
+        if isinstance(inner, ast.Call) and isinstance(inner.func, ast.Attribute) and inner.func.attr in ('values', 'as_array') \
+                and not inner.args and norm(inner.func.value) == base:
+            return 'sum-of-values'
+        return None
+
     for p in params:
         a = seen.get(p, [])
         ok = len(a) == 1 and isinstance(a[0].op, ast.Add)
@@ -92,24 +157,26 @@ def rule_sum(ctx):
             why = f'source `{p}` is added {len(a)} times to the species total'
         ctx.ob('C01-R1', st, f'source {p} enters the total', ok, why, line=(a[0].lineno if a else lp.lineno))
         if a:
-            red = norm(a[0].value)
-            okr = red == want_red.get(p)
-            ctx.ob('C01-R1', st, f'{p} reduced by `{red}`', okr, 'reduction matches the value shape (array / per-mode / scalar)' if okr
-                   else f'expected `{want_red.get(p)}`', line=a[0].lineno, nontrivial=False)
+            red = reduction(a[0].value, p)
+            shape = shape_of.get(p) or fallback.get(p)
+            okr = red is not None and red in allowed.get(shape, ())
+            ctx.ob('C01-R1', st, f'{p} reduced by `{norm(a[0].value)}`', okr, f'{red} of a per-species {shape} value' if okr
+                   else f'a per-species {shape} value must enter as {sorted(allowed.get(shape, ()))}, not as `{norm(a[0].value)[:50]}`',
+                   line=a[0].lineno, nontrivial=False)
             gs = [(norm(t), pol) for t, pol, _ in guards_of(a[0], stop=lp)]
-            memb = (f'species in {p}', True) in gs or any(f'species in {p}' in t and pol for t, pol in gs)
-            ctx.ob('C01-R1', st, f'{p} read only when it has the species', memb, f'`species in {p}`' if memb else
-                   f'{p}[species] is read without a membership test', line=a[0].lineno, nontrivial=False)
+            memb = (f'{kv} in {p}', True) in gs or any(f'{kv} in {p}' in t and pol for t, pol in gs)
+            ctx.ob('C01-R1', st, f'{p} read only when it has the species', memb, f'`{kv} in {p}`' if memb else
+                   f'{p}[{kv}] is read without a membership test', line=a[0].lineno, nontrivial=False)
     ctx.floor('C01-R1', len([p for p in params if p in seen]), 4, 'sources summed')
     extra = [a for s, al in seen.items() if s is None for a in al]
     for a in extra:
         ctx.ob('C01-R1', st, f'extra term {norm(a)}', False, 'something other than the four sources is added to the total', line=a.lineno)
-    res = [s for t, s, how in stores_to(st.node) if norm(t) == 'result[species]']
-    ok = len(res) == 1 and norm(res[0].value) == 'total' and any(x is lp for x in ancestors(res[0]))
-    ctx.ob('C01-R1', st, 'result[species] = total', ok, 'stored per species' if ok else 'the accumulated total is not what is stored')
-    tot0 = [s for t, s, how in stores_to(lp) if norm(t) == 'total' and how == 'assign']
-    ok = len(tot0) == 1 and isinstance(tot0[0].value, ast.Constant) and tot0[0].value.value == 0.0 and tot0[0] in lp.body
-    ctx.ob('C01-R1', st, 'accumulator reset per species', ok, 'total = 0.0 at the top of the loop body' if ok else
+    ok = len(res) == 1
+    ctx.ob('C01-R1', st, f'result[{kv}] = {acc}', ok, 'stored per species' if ok else 'the accumulated total is not what is stored')
+    tot0 = [s for t, s, how in stores_to(lp) if norm(t) == acc and how in ('assign', 'ann')]
+    ok = len(tot0) == 1 and isinstance(tot0[0].value, ast.Constant) and tot0[0].value.value == 0 and not isinstance(tot0[0].value.value, bool) \
+        and tot0[0] in lp.body and all(tot0[0].lineno < a.lineno for a in adds)
+    ctx.ob('C01-R1', st, 'accumulator reset per species', ok, f'{acc} = 0.0 at the top of the loop body' if ok else
            'the accumulator is not reset for each species (totals leak between species)')
     # switches
     for comp in ('apu', 'gse'):
@@ -173,14 +240,25 @@ def rule_fuel(ctx):
     ce = m.func('compute_emissions')
     defs = [s for t, s, how in stores_to(ce.node) if isinstance(t, ast.Name) and t.id == 'total_fuel_burn']
     comps = {}
+    def terms(e):
+        """the summands of e (`a + b + c`, float() looked through)"""
+        while isinstance(e, ast.Call) and call_name(e) == 'float' and len(e.args) == 1 and not e.keywords:
+            e = e.args[0]
+        if isinstance(e, ast.BinOp) and isinstance(e.op, ast.Add):
+            return terms(e.left) + terms(e.right)
+        return [e]
+
     for s in defs:
-        v = norm(s.value)
-        c = v.split('.')[0] if v.endswith('.fuel_burn') else None
-        ok_form = (isinstance(s, ast.Assign) or (isinstance(s, ast.AugAssign) and isinstance(s.op, ast.Add))) and c is not None
+        cs = []
+        for tm in terms(s.value):
+            x = next((y for y in _stands_for(ce.node, tm) if isinstance(y, ast.Attribute)), tm)
+            cs.append(x.value.id if isinstance(x, ast.Attribute) and x.attr == 'fuel_burn' and isinstance(x.value, ast.Name) else None)
+        ok_form = (isinstance(s, (ast.Assign, ast.AnnAssign)) or (isinstance(s, ast.AugAssign) and isinstance(s.op, ast.Add))) and None not in cs
         if not ok_form:
             ctx.ob('C01-R2', ce, norm(s), False, 'total fuel burn is updated by something that is not a component\'s fuel', line=s.lineno)
             continue
-        comps.setdefault(c, []).append(s)
+        for c in cs:
+            comps.setdefault(c, []).append(s)
     summed = {'trajectory', 'lto', 'apu', 'gse'}
     for c in sorted(summed | set(comps)):
         ss = comps.get(c, [])
@@ -198,7 +276,7 @@ def rule_fuel(ctx):
                    'same control region' if same else f'{c} fuel is added under a different condition than its computation',
                    line=ss[0].lineno)
     first = defs[0] if defs else None
-    ok = first is not None and isinstance(first, ast.Assign)
+    ok = first is not None and isinstance(first, (ast.Assign, ast.AnnAssign))
     ctx.ob('C01-R2', ce, 'total starts from the first component (no stale value)', ok, norm(first) if ok else 'total_fuel_burn is not initialised by assignment', nontrivial=False)
     # the array handed to the trajectory producer as its per-segment fuel - under whatever local name(s) - is
     # zeros_like(fuel_mass) with exactly one store, [1:] = fuel_mass[:-1] - fuel_mass[1:]
@@ -225,9 +303,13 @@ def rule_fuel(ctx):
     if ok and len(fb) == 1 and isinstance(fb[0][1], ast.Assign):
         t, s = fb[0]
         v = s.value
-        ok = norm(t.slice) == '1:' and isinstance(v, ast.BinOp) and isinstance(v.op, ast.Sub) \
+        diff = isinstance(v, ast.BinOp) and isinstance(v.op, ast.Sub) \
             and isinstance(v.left, ast.Subscript) and norm(v.left.slice) == ':-1' and mass(v.left.value) \
             and isinstance(v.right, ast.Subscript) and norm(v.right.slice) == '1:' and mass(v.right.value)
+        # the same differences as -np.diff(fuel_mass)
+        neg = isinstance(v, ast.UnaryOp) and isinstance(v.op, ast.USub) and isinstance(v.operand, ast.Call) \
+            and call_name(v.operand) in ('np.diff', 'numpy.diff') and len(v.operand.args) == 1 and not v.operand.keywords and mass(v.operand.args[0])
+        ok = norm(t.slice) == '1:' and (diff or neg)
     else:
         ok = False
     ctx.ob('C01-R3', ce, 'per-segment fuel = fuel-mass differences, booked at the segment end', ok,
@@ -275,6 +357,127 @@ def _element_of(fn, e, at):
                     if isinstance(owner, ast.For) and _writes_map(owner, mi[0], getattr(at, 'lineno', 0)) is not None:
                         return None
                     return mi[0], mi[1]
+    return None
+
+
+def _loop_items(fn, it):
+    """the expressions a `for v in it` walks when `it` is a literal collection - a tuple / list / set display written
+    in place or reached through a single-definition local, or itertools.chain(a, b, …) (each argument then counts as
+    the starred item `*a`); None for anything else"""
+    for x in _stands_for(fn, it):
+        if isinstance(x, (ast.Tuple, ast.List, ast.Set)):
+            return list(x.elts)
+        if isinstance(x, ast.Call) and call_name(x) in ('chain', 'itertools.chain') and not x.keywords:
+            return [a if isinstance(a, ast.Starred) else ast.Starred(value=a, ctx=ast.Load()) for a in x.args]
+    return None
+
+
+def _denotations(fn, e, at, depth=0, name=False):
+    """[(expression, node in whose context it is read)]: everything e may denote at node `at`, looking through
+    single-definition locals and through loop variables that walk a literal collection (`for v in (a, b)`: v denotes
+    a and b, each read in the context of the loop).  With name=True a chain of locals is followed to its last *name*
+    (the object's own local name) instead of the expression that created it."""
+    chain = _stands_for(fn, e)
+    last = chain[-1]
+    if name:
+        last = next((x for x in reversed(chain) if isinstance(x, ast.Name)), last)
+    if isinstance(last, ast.Name) and depth < 6:
+        for owner, tgt, it in enclosing_iterations(at):
+            if isinstance(tgt, ast.Name) and tgt.id == last.id:
+                items = _loop_items(fn, it)
+                if items is None:
+                    break
+                return [d for i in items for d in _denotations(fn, i, owner, depth + 1, name)]
+    return [(last, at)]
+
+
+def _elements_of(fn, e, at):
+    """[(mapping text, key text or None), …]: every element of a mapping that expression e may be at node `at` -
+    `m[k]`, the value variable of a governing `for k, v in m.items()` / `for v in m.values()` (not after the loop
+    stored into m), a local standing for either, or the variable of a loop over a literal collection of such things
+    (`for a in (m[k], n[k])`, `for a in (*m.values(), *n.values())`); the mapping itself may be the variable of a loop
+    over a literal collection of mappings (`for m in (p, q): m[k]…`).  None when some possibility is no element of a
+    mapping."""
+    out = []
+    for x, cx in _denotations(fn, e, at):
+        maps, key = None, None
+        if isinstance(x, ast.Starred):
+            im = iterated_mapping(x.value)
+            if im is None or im[1] != 'values':
+                return None
+            maps = im[0]
+        elif isinstance(x, ast.Subscript) and isinstance(x.value, (ast.Name, ast.Attribute)):
+            maps, key = x.value, norm(x.slice)
+        elif isinstance(x, ast.Name):
+            for owner, tgt, it in enclosing_iterations(cx):
+                mi = map_iteration(tgt, it)
+                if mi and mi[2] == x.id:
+                    if isinstance(owner, ast.For) and _writes_map(owner, mi[0], getattr(at, 'lineno', 0)) is not None:
+                        return None
+                    maps, key, cx = iterated_mapping(it)[0], mi[1], owner
+                    break
+        if maps is None:
+            return None
+        out += [(norm(m), key) for m, _c in _denotations(fn, maps, cx, name=True)]
+    return out
+
+
+def _slice_alternatives(fn, sl, at, whole=()):
+    """{(lower, upper), …} - canonical bounds of every slice the subscript `sl` may be at node `at`: `a:b`,
+    slice(a, b), slice(b), np.s_[a:b], a local standing for one of those, or the variable of a loop over a literal
+    collection of them.  A bound is None when it is absent / None / a lower 0 / an upper len(x) for x in `whole`;
+    otherwise the text of what it stands for.  None when the subscript is anything else (a mask, an index array)."""
+    def bound(e, cx, lower):
+        if e is None:
+            return None
+        for x in _stands_for(fn, e):
+            if isinstance(x, ast.Constant) and (x.value is None or (lower and x.value == 0 and not isinstance(x.value, bool))):
+                return None
+            if not lower and isinstance(x, ast.Call) and call_name(x) == 'len' and len(x.args) == 1 and norm(x.args[0]) in whole:
+                return None
+            if isinstance(x, ast.Name):
+                td = tuple_def_component(fn, x.id)
+                if td is not None and isinstance(td[0], (ast.Tuple, ast.List)) and td[1] < len(td[0].elts):
+                    return bound(td[0].elts[td[1]], cx, lower)
+            if isinstance(x, ast.Attribute) and x.attr in ('start', 'stop'):
+                names = [y for y in _stands_for(fn, x.value) if isinstance(y, ast.Name)]
+                return f'{names[-1].id}.{x.attr}' if names else norm(x)
+            last = x
+        return norm(last)
+
+    out = set()
+    for x, cx in ([(sl, at)] if isinstance(sl, ast.Slice) else _denotations(fn, sl, at)):
+        if isinstance(x, ast.Subscript) and norm(x.value) in ('np.s_', 'numpy.s_', 'np.index_exp'):
+            x = x.slice
+        if isinstance(x, ast.Name):
+            td = tuple_def_component(fn, x.id)
+            if td is not None and isinstance(td[0], (ast.Tuple, ast.List)) and td[1] < len(td[0].elts):
+                r = _slice_alternatives(fn, td[0].elts[td[1]], cx, whole)
+                if r is None:
+                    return None
+                out |= r
+                continue
+        if isinstance(x, ast.Slice) and x.step is None:
+            out.add((bound(x.lower, cx, True), bound(x.upper, cx, False)))
+        elif isinstance(x, ast.Call) and call_name(x) == 'slice' and not x.keywords and 1 <= len(x.args) <= 2:
+            lo, hi = (None, x.args[0]) if len(x.args) == 1 else x.args
+            out.add((bound(lo, cx, True), bound(hi, cx, False)))
+        else:
+            return None
+    return out
+
+
+def _call_arg(callee, call, pname):
+    """the argument of `call` bound to parameter pname of the resolved function callee (None when it cannot be told)"""
+    if pname is None or any(isinstance(a, ast.Starred) for a in call.args) or any(k.arg is None for k in call.keywords):
+        return None
+    k = kwarg(call, pname)
+    if k is not None:
+        return k
+    a = callee.node.args
+    names = [p.arg for p in a.posonlyargs + a.args]
+    if pname in names and names.index(pname) < len(call.args):
+        return call.args[names.index(pname)]
     return None
 
 
@@ -452,25 +655,72 @@ def rule_amounts(ctx):
             'segments can have emissions whose fuel is missing from total fuel burn (or vice versa)'))
     win = t_slice.id if isinstance(t_slice, ast.Name) else 'idx_slice'
     # window masking: constant stores into a slice of an *element* of the index / amount map, however the element is
-    # reached (`m[k][a:b]`, the value variable of `for k, v in m.items()` / `m.values()`, or a local standing for it)
-    zero = []
-    for t, s, how in stores_to(tf.node):
-        if isinstance(t, ast.Subscript) and isinstance(getattr(s, 'value', None), ast.Constant):
-            el = _element_of(tf.node, t.value, s)
-            if el is not None and el[0] in (t_idx, t_em):
-                zero.append((t, s, 'indices' if el[0] == t_idx else 'emissions'))
+    # reached (`m[k][a:b]`, the value variable of `for k, v in m.items()` / `m.values()`, a local standing for it, or
+    # the variable of a loop over a literal collection of such elements / of the two maps) and however the slice is
+    # spelt (`[:w.start]`, slice(None, w.start), np.s_[...], a named slice, the variable of a loop over such)
+    wcall = single_def_value(tf.node, win)
+    whole = {norm(a_) for a_ in wcall.args} if isinstance(wcall, ast.Call) else set()
     by_slice = {}
-    for t, s, which in zero:
-        by_slice.setdefault(norm(t.slice), set()).add(which)
-        if s.value.value != 0.0:
-            ctx.ob('C01-R3', tf, norm(s), False, 'window masking writes a non-zero constant', line=s.lineno)
-    for sl, who in sorted(by_slice.items()):
+    for t, s, how in stores_to(tf.node):
+        if isinstance(t, ast.Subscript) and isinstance(getattr(s, 'value', None), ast.Constant) and how in ('assign', 'ann'):
+            els = _elements_of(tf.node, t.value, s)
+            which = {'indices' if m_ == t_idx else 'emissions' for m_, _k in (els or []) if m_ in (t_idx, t_em)}
+            if not which:
+                continue
+            if s.value.value != 0.0:
+                ctx.ob('C01-R3', tf, norm(s), False, 'window masking writes a non-zero constant', line=s.lineno)
+            sls = _slice_alternatives(tf.node, t.slice, s, whole)
+            if sls is None:
+                ctx.undecided('C01-R4', tf, norm(s)[:60], 'cannot tell which window this zeroing store covers')
+            for sl in sls:
+                by_slice.setdefault(sl, set()).update(which)
+    # the same stores made by a resolved repository function on one of its parameters (a blanking helper in another
+    # module): the parameter stands for what the caller passes, its window parameter for the caller's slice
+    from ..resolve import resolve_call
+    for c in calls_in(tf.node):
+        callee = resolve_call(prog, tf, c)
+        if callee is None or callee.cls is not None or callee.node.decorator_list or callee.node is tf.node:
+            continue
+        for t, s, how in stores_to(callee.node):
+            if not (isinstance(t, ast.Subscript) and isinstance(getattr(s, 'value', None), ast.Constant) and how in ('assign', 'ann')):
+                continue
+            root = [x for x in _stands_for(callee.node, t.value) if isinstance(x, ast.Name)]
+            pname = root[-1].id if root and root[-1].id in callee.params and not local_defs(callee.node, root[-1].id) else None
+            arg = _call_arg(callee, c, pname) if pname else None
+            els = _elements_of(tf.node, arg, stmt_of(c)) if arg is not None else None
+            which = {'indices' if m_ == t_idx else 'emissions' for m_, _k in (els or []) if m_ in (t_idx, t_em)}
+            if not which:
+                continue
+            if s.value.value != 0.0:
+                ctx.ob('C01-R3', tf, f'{callee.name}: {norm(s)}', False, 'window masking writes a non-zero constant', line=c.lineno)
+            sls = _slice_alternatives(callee.node, t.slice, s, {pname})
+            out = set()
+            for sl in sls or ():
+                tr = []
+                for b_ in sl:
+                    if b_ is not None and b_.rsplit('.', 1)[-1] in ('start', 'stop') and b_.rsplit('.', 1)[0] in callee.params:
+                        a_ = _call_arg(callee, c, b_.rsplit('.', 1)[0])
+                        names = [y for y in _stands_for(tf.node, a_) if isinstance(y, ast.Name)] if a_ is not None else []
+                        b_ = f'{names[-1].id}.{b_.rsplit(".", 1)[-1]}' if names else '?'
+                    elif b_ is not None:
+                        b_ = '?'
+                    tr.append(b_)
+                out.add(tuple(tr))
+            if sls is None or any('?' in sl for sl in out):
+                ctx.undecided('C01-R4', tf, f'{callee.name}: {norm(s)[:50]}', 'cannot tell which window this zeroing store of a helper covers')
+            for sl in out:
+                by_slice.setdefault(sl, set()).update(which)
+
+    def show(sl):
+        return f'{sl[0] or ""}:{sl[1] or ""}'
+
+    for sl, who in sorted(by_slice.items(), key=lambda kv: show(kv[0])):
         ok = who == {'indices', 'emissions'}
-        ctx.ob('C01-R3', tf, f'zeroing over [{sl}] applied to {sorted(who)}', ok,
+        ctx.ob('C01-R3', tf, f'zeroing over [{show(sl)}] applied to {sorted(who)}', ok,
                'index and amount are masked together' if ok else
                'only one of index/amount is masked: amount ≠ index × fuel inside the masked window')
-    ok = set(by_slice) == {f':{win}.start', f'{win}.stop:'}
-    ctx.ob('C01-R4', tf, f'masked windows {sorted(by_slice)}', ok, f'everything outside {win}' if ok else
+    ok = set(by_slice) == {(None, f'{win}.start'), (f'{win}.stop', None)}
+    ctx.ob('C01-R4', tf, f'masked windows {sorted(show(k) for k in by_slice)}', ok, f'everything outside {win}' if ok else
            'the masked windows are not the complement of the counted slice')
     late = [s for t, s in [(t, s) for t, s, how in stores_to(tf.node) if isinstance(t, ast.Subscript) and norm(t.value) == t_idx]
             if mult and s.lineno > mult[0].lineno]
@@ -517,73 +767,211 @@ def rule_amounts(ctx):
     ctx.ob('C01-R3', gf, f'GSE returns {kw}', ok, 'amounts and fuel' if ok else 'GSE returns crossed fields', nontrivial=False)
 
 
+class _EnumVal:
+    """a member of an enum during finite evaluation: one object per member (so `is` works); equal to itself and - the
+    configuration enums are string enums - to its value"""
+
+    def __init__(self, name, value):
+        self.name, self.value = name, value
+
+    def __eq__(self, other):
+        return self is other or (isinstance(other, str) and other == self.value)
+
+    def __ne__(self, other):
+        return not self.__eq__(other)
+
+    def __hash__(self):
+        return hash(self.name)
+
+    def __repr__(self):
+        return self.name
+
+
+def _pattern_hit(p, subj, env):
+    if isinstance(p, ast.MatchAs) and p.pattern is None:
+        return True
+    if isinstance(p, ast.MatchOr):
+        return any(_pattern_hit(q, subj, env) for q in p.patterns)
+    if isinstance(p, ast.MatchValue):
+        return subj == eval_pred(p.value, env)
+    raise ValueError('pattern')
+
+
+def _returned_under(fn, env):
+    """the expression fn returns when every test is evaluated in env: if/elif/else, guard clauses, match, conditional
+    expressions, a dict display indexed by an evaluable key.  ValueError when a test cannot be evaluated; None when
+    the function falls off its end."""
+    env = dict(env)
+
+    def pick(e):
+        while True:
+            if isinstance(e, ast.IfExp):
+                e = e.body if eval_pred(e.test, env) else e.orelse
+            elif isinstance(e, ast.Subscript) and isinstance(e.value, ast.Dict) and all(k is not None for k in e.value.keys):
+                k = eval_pred(e.slice, env)
+                hit = [v for kk, v in zip(e.value.keys, e.value.values) if eval_pred(kk, env) == k]
+                if len(hit) != 1:
+                    raise ValueError('dict dispatch without exactly one matching key')
+                e = hit[0]
+            else:
+                return e
+
+    def run(stmts):
+        for st in stmts:
+            if isinstance(st, ast.Return):
+                return ('return', pick(st.value) if st.value is not None else None)
+            if isinstance(st, ast.Raise):
+                return ('raise', None)
+            if isinstance(st, ast.If):
+                r = run(st.body if eval_pred(st.test, env) else st.orelse)
+                if r is not None:
+                    return r
+            elif isinstance(st, ast.Match):
+                subj = eval_pred(st.subject, env)
+                for c in st.cases:
+                    if _pattern_hit(c.pattern, subj, env) and (c.guard is None or eval_pred(c.guard, env)):
+                        r = run(c.body)
+                        if r is not None:
+                            return r
+                        break
+            elif isinstance(st, (ast.Assign, ast.AnnAssign)) and st.value is not None:
+                tg = st.targets if isinstance(st, ast.Assign) else [st.target]
+                for t in tg:
+                    for nn in ast.walk(t):
+                        if isinstance(nn, ast.Name):
+                            env.pop(nn.id, None)
+                if len(tg) == 1 and isinstance(tg[0], ast.Name):
+                    try:
+                        env[tg[0].id] = eval_pred(st.value, env)
+                    except ValueError:
+                        pass
+            elif isinstance(st, (ast.For, ast.While, ast.Try, ast.With)) and any(isinstance(x, ast.Return) for x in walk_no_nested(st)):
+                raise ValueError('a return inside a loop / try / with')
+        return None
+
+    r = run(fn.body)
+    return r[1] if r is not None and r[0] == 'return' else None
+
+
+def _executed_under(fn, stmt, env):
+    """is stmt reached when the tests that govern it (enclosing if / match arms, earlier guard clauses of the enclosing
+    blocks) are evaluated in env?  ValueError when one of them cannot be evaluated."""
+    for test, pol, owner in guards_of(stmt):
+        if bool(eval_pred(test, env)) != pol:
+            return False
+    child = stmt
+    for a in ancestors(stmt):
+        if isinstance(a, ast.match_case):
+            m = getattr(a, '_parent', None)
+            subj = eval_pred(m.subject, env)
+            for c in m.cases:
+                hit = _pattern_hit(c.pattern, subj, env) and (c.guard is None or eval_pred(c.guard, env))
+                if c is a:
+                    if not hit:
+                        return False
+                    break
+                if hit:
+                    return False
+        for f in ('body', 'orelse', 'finalbody'):
+            bl = getattr(a, f, None)
+            if isinstance(bl, list) and any(child is x for x in bl):
+                for x in bl:
+                    if x is child:
+                        break
+                    if isinstance(x, ast.If) and x.body and isinstance(x.body[-1], (ast.Return, ast.Raise, ast.Continue, ast.Break)) \
+                            and bool(eval_pred(x.test, env)):
+                        return False
+        if a is fn:
+            break
+        child = a
+    return True
+
+
+def _window_kind(prog, ts, e):
+    """'full' when the returned window covers the whole trajectory ([0 or open, len(traj) or open)), 'cruise' when it is
+    [traj.n_climb, len(traj) - traj.n_descent) (bounds compared as exact normal forms), None otherwise"""
+    traj = ts.params[0] if ts.params else 'traj'
+    e = _expand(ts, e, prog) if e is not None else None
+    if not (isinstance(e, ast.Call) and call_name(e) == 'slice' and not e.keywords and 1 <= len(e.args) <= 2):
+        return None
+    lo, hi = (ast.Constant(None), e.args[0]) if len(e.args) == 1 else e.args
+
+    def is_none(x):
+        return isinstance(x, ast.Constant) and x.value is None
+    full_lo = is_none(lo) or (isinstance(lo, ast.Constant) and lo.value == 0 and not isinstance(lo.value, bool))
+    full_hi = is_none(hi) or norm(hi) == f'len({traj})'
+    if full_lo and full_hi:
+        return 'full'
+    if is_none(lo) or is_none(hi):
+        return None
+    try:
+        want_lo = normal_form(ast.parse(f'{traj}.n_climb', mode='eval').body, {})
+        want_hi = normal_form(ast.parse(f'len({traj}) - {traj}.n_descent', mode='eval').body, {})
+        if poly_equal(normal_form(lo, {}), want_lo) and poly_equal(normal_form(hi, {}), want_hi):
+            return 'cruise'
+    except AlgebraError:
+        return None
+    return None
+
+
 def rule_windows(ctx):
     prog = ctx.prog
     cm = prog.module('config/emissions.py')
-    members = [k for k, v in cm.cls('ClimbDescentMode').class_assignments().items() if isinstance(v, ast.Constant)]
+    members = {k: _EnumVal(k, v.value) for k, v in cm.cls('ClimbDescentMode').class_assignments().items() if isinstance(v, ast.Constant)}
     ctx.floor('C01-R4', len(members), 2, 'climb/descent accounting modes')
     ts = prog.func(TR, '_trajectory_slice')
-    iff = next((n for n in walk_no_nested(ts.node) if isinstance(n, ast.If)), None)
-    if iff is None:
-        ctx.undecided('C01-R4', ts, 'if', 'window selection is not an if/else')
-    body_ret = next((s for s in iff.body if isinstance(s, ast.Return)), None)
-    else_ret = next((s for s in iff.orelse if isinstance(s, ast.Return)), None)
-    excl_txt, full_txt = 'slice(traj.n_climb, len(traj) - traj.n_descent)', 'slice(0, len(traj))'
-    if body_ret is None or else_ret is None:
-        ctx.undecided('C01-R4', ts, 'returns', 'window selection shape not recognised')
-    if norm(body_ret.value) == excl_txt and norm(else_ret.value) == full_txt:
-        excl_pred, pol = iff.test, True
-    elif norm(body_ret.value) == full_txt and norm(else_ret.value) == excl_txt:
-        excl_pred, pol = iff.test, False
-    else:
-        ctx.ob('C01-R4', ts, f'windows {norm(body_ret.value)} / {norm(else_ret.value)}', False,
-               'the cruise-only window is not [n_climb, len − n_descent) or the full window is not [0, len)', line=iff.lineno)
-        return
-    ctx.ob('C01-R4', ts, 'cruise-only window = [n_climb, len − n_descent); full window = [0, len)', True, 'window shapes', line=iff.lineno)
     lf = prog.func(LTO, 'get_LTO_emissions')
-    ziff = None
-    for n in walk_no_nested(lf.node):
-        if isinstance(n, ast.If) and 'climb_descent_mode' in norm(n.test):
-            ziff = n
-    if ziff is None:
-        ctx.undecided('C01-R4', lf, 'if', 'LTO window guard not found')
-    for mem in members:
-        env = {'config.emissions.climb_descent_mode': mem}
-        env.update({f'ClimbDescentMode.{k}': k for k in members})
-        try:
-            traj_excludes = bool(eval_pred(excl_pred, env)) == pol
-            lto_zeroes = bool(eval_pred(ziff.test, env))
-        except ValueError as e:
-            ctx.undecided('C01-R4', ts, f'mode {mem}', f'cannot evaluate the guards: {e}')
-        ok = traj_excludes != lto_zeroes
-        ctx.ob('C01-R4', ts, f'mode {mem}: trajectory excludes climb/descent={traj_excludes}, LTO drops approach/climb fuel={lto_zeroes}', ok,
-               'every kilogram of climb/descent fuel is counted exactly once' if ok else
-               ('climb/descent fuel is counted twice' if not traj_excludes and not lto_zeroes else
-                'climb/descent fuel is counted nowhere'), line=iff.lineno)
-    # which modes of the per-mode fuel (the variable whose sum the producer reports) are set to zero under that
-    # guard: stores under a ThrustMode key, or under the variable of a loop over a constant collection of modes
+    # the per-mode fuel (the variable whose sum the producer reports) and the constant stores into it
     l_idx, l_em, _src, l_fuel = _producer_names(ctx, lf, record=False)
-    zmodes = []
-    for t, s, how in stores_to(ziff):
-        if not (isinstance(t, ast.Subscript) and norm(t.value) == l_fuel and how == 'assign' and any(s is x or is_within(s, x) for x in ziff.body)):
+    zero = []           # (statement, [mode texts])
+    for t, s, how in stores_to(lf.node):
+        if not (isinstance(t, ast.Subscript) and norm(t.value) == l_fuel and how == 'assign'):
             continue
         if const_value(s.value) != 0:
             ctx.ob('C01-R4', lf, norm(s)[:60], False, 'the per-mode LTO fuel is overwritten with something other than zero', line=s.lineno)
             continue
         if isinstance(t.slice, ast.Attribute):
-            zmodes.append(norm(t.slice))
+            zero.append((s, [norm(t.slice)]))
         elif isinstance(t.slice, ast.Name):
-            lp = next((o for o, tg, it_ in enclosing_iterations(s, stop=ziff) if isinstance(tg, ast.Name) and tg.id == t.slice.id), None)
+            lp = next((o for o, tg, it_ in enclosing_iterations(s) if isinstance(tg, ast.Name) and tg.id == t.slice.id), None)
             elts = _seq_elts(prog, lf, lp.iter) if isinstance(lp, ast.For) else None
             if elts is None:
                 ctx.undecided('C01-R4', lf, norm(s)[:60], 'cannot tell which thrust modes the loop walks')
-            zmodes += [norm(e) for e in elts]
-    ok = sorted(zmodes) == ['ThrustMode.APPROACH', 'ThrustMode.CLIMB']
-    ctx.ob('C01-R4', lf, f'LTO fuel zeroed for {zmodes}', ok, 'exactly the two modes the trajectory window replaces' if ok else
-           'the LTO modes whose fuel is dropped are not approach and climb')
+            zero.append((s, [norm(e) for e in elts]))
+        else:
+            ctx.undecided('C01-R4', lf, norm(s)[:60], 'cannot tell which thrust mode is zeroed')
+    ctx.floor('C01-R4/lto', len(zero), 1, 'zeroing stores into the per-mode LTO fuel')
+    shapes_ok = True
+    for mem, val in members.items():
+        env = {'config.emissions.climb_descent_mode': val}
+        env.update({f'ClimbDescentMode.{k}': v for k, v in members.items()})
+        try:
+            ret = _returned_under(ts.node, env)
+            kind = _window_kind(prog, ts, ret)
+            dropped = sorted({m for s, modes in zero if _executed_under(lf.node, s, env) for m in modes})
+        except ValueError as e:
+            ctx.undecided('C01-R4', ts, f'mode {mem}', f'cannot evaluate the guards: {e}')
+        if kind is None:
+            shapes_ok = False
+            ctx.ob('C01-R4', ts, f'mode {mem}: window {norm(ret) if ret is not None else None}', False,
+                   'the cruise-only window is not [n_climb, len − n_descent) or the full window is not [0, len)', line=ts.node.lineno)
+            continue
+        traj_excludes = kind == 'cruise'
+        if dropped not in ([], ['ThrustMode.APPROACH', 'ThrustMode.CLIMB']):
+            ctx.ob('C01-R4', lf, f'mode {mem}: LTO fuel zeroed for {dropped}', False,
+                   'the LTO modes whose fuel is dropped are not approach and climb', line=zero[0][0].lineno)
+            continue
+        lto_zeroes = bool(dropped)
+        ok = traj_excludes != lto_zeroes
+        ctx.ob('C01-R4', ts, f'mode {mem}: trajectory excludes climb/descent={traj_excludes}, LTO drops approach/climb fuel={lto_zeroes}', ok,
+               'every kilogram of climb/descent fuel is counted exactly once' if ok else
+               ('climb/descent fuel is counted twice' if not traj_excludes and not lto_zeroes else
+                'climb/descent fuel is counted nowhere'), line=ts.node.lineno)
+    if shapes_ok:
+        ctx.ob('C01-R4', ts, 'cruise-only window = [n_climb, len − n_descent); full window = [0, len)', True, 'window shapes', line=ts.node.lineno)
     # the zeroing must precede the multiplication
     mult = [st for _k, _v, _at, st in _amount_sites(lf.node, l_em)]
-    ok = bool(mult) and ziff.lineno < mult[0].lineno
+    ok = bool(mult) and all(s.lineno < mult[0].lineno for s, _m in zero)
     ctx.ob('C01-R4', lf, 'fuel is zeroed before the amounts are formed', ok, 'order' if ok else 'amounts are formed from unzeroed fuel', nontrivial=False)
 
 
@@ -664,39 +1052,155 @@ def _constant_shares(prog, fi, mp, base_key):
     return out
 
 
+def _expand(fi, e, prog=None, depth=0):
+    """expression e of function fi with every local that has exactly one definition (`a = E`, `a, b = E1, E2`) replaced
+    by that definition, and every call of a *simple function* - a nested def or a lambda of fi, or a function of fi's
+    module, whose body is one `return E` - replaced by E with the arguments bound.  What cannot be expanded stays."""
+    import copy
+    fn = fi.node
+    count, vals, fns = {}, {}, {}
+    for t, st, how in stores_to(fn):
+        if isinstance(t, ast.Name):
+            count[t.id] = count.get(t.id, 0) + 1
+    for x in walk_no_nested(fn):
+        if isinstance(x, (ast.Assign, ast.AnnAssign)) and x.value is not None:
+            for t in (x.targets if isinstance(x, ast.Assign) else [x.target]):
+                if isinstance(t, ast.Name):
+                    vals[t.id] = x.value
+                elif isinstance(t, (ast.Tuple, ast.List)) and isinstance(x.value, (ast.Tuple, ast.List)) and len(t.elts) == len(x.value.elts):
+                    vals.update({a_.id: b_ for a_, b_ in zip(t.elts, x.value.elts) if isinstance(a_, ast.Name)})
+    nested = [x for x in ast.walk(fn) if isinstance(x, ast.FunctionDef) and x is not fn and next(
+        (a_ for a_ in ancestors(x) if isinstance(a_, (ast.FunctionDef, ast.AsyncFunctionDef, ast.Lambda, ast.ClassDef))), None) is fn]
+    for x in nested:
+        if sum(1 for y in nested if y.name == x.name) == 1 and x.name not in count:
+            fns[x.name] = x
+    vals = {k: v for k, v in vals.items() if count.get(k) == 1 and k not in fi.params}
+    if prog is not None:
+        for g in fi.module.functions.values():
+            if '.' not in g.qualname and g.name not in fns and g.name not in count and g.node is not fn:
+                fns[g.name] = g.node
+
+    def simple(d):
+        """(parameter names, defaults, returned expression) of a one-expression function"""
+        if isinstance(d, ast.Lambda):
+            body = d.body
+        else:
+            stmts = [x for x in d.body if not (isinstance(x, ast.Expr) and isinstance(x.value, ast.Constant))]
+            if len(stmts) != 1 or not isinstance(stmts[0], ast.Return) or stmts[0].value is None or d.decorator_list:
+                return None
+            body = stmts[0].value
+        a = d.args
+        if a.vararg or a.kwarg or a.kwonlyargs:
+            return None
+        names = [p.arg for p in a.posonlyargs + a.args]
+        return names, dict(zip(names[len(names) - len(a.defaults):], a.defaults)), body
+
+    class X(ast.NodeTransformer):
+        def __init__(self, bind, busy, level):
+            self.bind, self.busy, self.level = bind, busy, level
+
+        def visit_Name(self, n):
+            if not isinstance(n.ctx, ast.Load):
+                return n
+            if n.id in self.bind:
+                return copy.deepcopy(self.bind[n.id])
+            if n.id in vals and n.id not in self.busy and self.level < 40 and not isinstance(vals[n.id], ast.Lambda):
+                return X({}, self.busy | {n.id}, self.level + 1).visit(copy.deepcopy(vals[n.id]))
+            return n
+
+        def visit_Lambda(self, n):
+            return n
+
+        def visit_ListComp(self, n):
+            return n
+        visit_SetComp = visit_DictComp = visit_GeneratorExp = visit_ListComp
+
+        def visit_Call(self, n):
+            n.args = [self.visit(a_) for a_ in n.args]
+            for k in n.keywords:
+                k.value = self.visit(k.value)
+            d = None
+            if isinstance(n.func, ast.Name) and n.func.id not in self.bind:
+                d = fns.get(n.func.id) or (vals.get(n.func.id) if isinstance(vals.get(n.func.id), ast.Lambda) else None)
+            sd = simple(d) if d is not None else None
+            if sd is None or self.level >= 40 or any(isinstance(a_, ast.Starred) for a_ in n.args) or any(k.arg is None for k in n.keywords):
+                n.func = self.visit(n.func)
+                return n
+            names, defaults, body = sd
+            bind = {}
+            for i, a_ in enumerate(n.args):
+                if i >= len(names):
+                    return n
+                bind[names[i]] = a_
+            for k in n.keywords:
+                if k.arg not in names or k.arg in bind:
+                    return n
+                bind[k.arg] = k.value
+            for nm_ in names:
+                if nm_ not in bind:
+                    if nm_ not in defaults:
+                        return n
+                    bind[nm_] = defaults[nm_]
+            # the body sees its parameters first, then (nested def / lambda) the enclosing function's locals
+            return X(bind, self.busy | {n.func.id}, self.level + 1).visit(copy.deepcopy(body))
+
+    return X({}, frozenset(), depth).visit(copy.deepcopy(e))
+
+
+def _per_mode(e, modes):
+    """[value expression per thrust mode, in the order of `modes`] of a ThrustModeValues construction: four positional
+    values (one per member of ThrustMode, in its order), a dict display keyed by ThrustMode members (a missing mode
+    reads as 0.0), or one number for all modes.  None for anything else."""
+    if not (isinstance(e, ast.Call) and call_name(e) == 'ThrustModeValues' and all(k.arg == 'mutable' for k in e.keywords)):
+        return None
+    if any(isinstance(a, ast.Starred) for a in e.args):
+        return None
+    if len(e.args) == len(modes):
+        return list(e.args)
+    if len(e.args) == 1:
+        a = e.args[0]
+        if isinstance(a, ast.Dict) and all(isinstance(k, ast.Attribute) and norm(k.value) == 'ThrustMode' for k in a.keys):
+            d = {k.attr: v for k, v in zip(a.keys, a.values)}
+            return [d.get(m, ast.Constant(0.0)) for m in modes]
+        if isinstance(const_value(a), float):
+            return [a] * len(modes)
+    return None
+
+
 def rule_speciation(ctx):
     prog = ctx.prog
     nm = prog.module('emissions/ei/nox.py')
     sp = nm.func('NOx_speciation')
-    env = {}
-    for x in walk_no_nested(sp.node):
-        if isinstance(x, ast.Assign):
-            t = x.targets[0]
-            if isinstance(t, ast.Name):
-                env[t.id] = x.value
-            elif isinstance(t, ast.Tuple) and isinstance(x.value, ast.Tuple):
-                for a, b in zip(t.elts, x.value.elts):
-                    env[a.id] = b
-    for cls_ in ('H', 'L', 'A'):
+    # per thrust mode, the three fractions NOx_speciation() returns add up to one - as an exact identity over the
+    # function's own definitions (locals, nested helpers and one-line helpers of the module expanded), whatever the
+    # nominal HONO / NO2 numbers and however the table is laid out
+    modes = [k for k, v in prog.cls('performance/types.py', 'ThrustMode').class_assignments().items() if isinstance(v, ast.Constant)]
+    ctx.floor('C01-R5/modes', len(modes), 4, 'thrust modes')
+    rets = [n for n in walk_no_nested(sp.node) if isinstance(n, ast.Return) and n.value is not None]
+    fields = None
+    if len(rets) == 1:
+        rv = _expand(sp, rets[0].value, prog)
+        if isinstance(rv, ast.Call) and call_name(rv) == 'NOXSpeciation' and not any(isinstance(a_, ast.Starred) for a_ in rv.args):
+            order = list(nm.cls('NOXSpeciation').annotated_fields())
+            fields = {order[i]: a_ for i, a_ in enumerate(rv.args) if i < len(order)}
+            fields.update({k.arg: k.value for k in rv.keywords if k.arg})
+    if fields is None or set(fields) != {'no', 'no2', 'hono'}:
+        ctx.undecided('C01-R5', sp, 'return NOXSpeciation(no, no2, hono)', 'the returned speciation table is not recognised')
+    per = {k: _per_mode(v, modes) for k, v in fields.items()}
+    for k, v in per.items():
+        if v is None:
+            ctx.undecided('C01-R5', sp, f'{k} = {norm(fields[k])[:60]}', 'cannot read the per-mode values of this ThrustModeValues')
+    for i, mode in enumerate(modes):
+        e = ast.BinOp(ast.BinOp(ast.BinOp(per['no'][i], ast.Add(), per['no2'][i]), ast.Add(), per['hono'][i]), ast.Sub(), ast.Constant(1))
         try:
-            e = ast.parse(f'no{cls_}nom + no2{cls_}nom + hono{cls_}nom - 100.0', mode='eval').body
-            nf = normal_form(e, env)
+            nf = normal_form(e, {})
             ok = nf.is_zero()
-        except (AlgebraError, KeyError) as ex:
-            ctx.undecided('C01-R5', sp, f'class {cls_}', str(ex))
-        ctx.ob('C01-R5', sp, f'thrust class {cls_}: NO + NO2 + HONO − 100 ≡ {nf}', ok,
-               'identically zero, whatever the nominal HONO / NO2 numbers' if ok else
-               f'NO + NO2 + HONO ≠ 100 % in class {cls_}: the three species do not add up to NOx')
-    ret = [n for n in walk_no_nested(sp.node) if isinstance(n, ast.Return)][0].value
-    orders = {}
-    for k in ret.keywords:
-        args = [norm(a) for a in k.value.args]
-        orders[k.arg] = args
-        pre = {'no': 'no', 'no2': 'no2', 'hono': 'hono'}[k.arg]
-        ok = args == [f'{pre}Lnom / 100', f'{pre}Anom / 100', f'{pre}Hnom / 100', f'{pre}Hnom / 100']
-        ctx.ob('C01-R5', sp, f'{k.arg} per mode = {args}', ok, 'idle→L, approach→A, climb/take-off→H, as fractions' if ok else
-               f'mode order or scaling of `{k.arg}` differs from the other two species: the per-mode sum is not 1',
-               line=k.value.lineno)
+        except AlgebraError as ex:
+            ctx.undecided('C01-R5', sp, f'mode {mode}', str(ex))
+        ctx.ob('C01-R5', sp, f'thrust mode {mode}: NO + NO2 + HONO − 1 ≡ {nf}', ok,
+               'identically zero: the three fractions add up to one' if ok else
+               f'the NO, NO2 and HONO fractions of mode {mode} do not add up to one: the three species do not add up to NOx',
+               line=rets[0].lineno)
     # GSE split: which constant share of GSE NOx each of NO / NO2 / HONO receives - from single stores or from a
     # loop over a constant table (dict / sequence of pairs; local, module-level or imported)
     gf = prog.func(GSE, 'get_GSE_emissions')
@@ -718,79 +1222,212 @@ def rule_speciation(ctx):
         ok = len(s) == 1 and {norm(s[0].value.left), norm(s[0].value.right)} == {f'{mp}[Species.SO2]', f'{mp}[Species.SO4]'} \
             and isinstance(s[0].value.op, ast.Add)
         ctx.ob('C01-R5', fn_, f'{mp}[SOx] = SO2 + SO4', ok, norm(s[0].value) if ok else 'SOx is not the sum of SO2 and SO4')
-    af = prog.func(APU, 'get_APU_emissions')
-    modes = set()
-    for sp_, fr in (('NO', 'no'), ('NO2', 'no2'), ('HONO', 'hono')):
-        s = [st for t, st, how in stores_to(af.node) if norm(t) == f'indices[Species.{sp_}]']
-        ok = len(s) == 1 and isinstance(s[0].value, ast.BinOp) and norm(s[0].value.left) == 'apu.NOx_g_per_kg' \
-            and isinstance(s[0].value.right, ast.Subscript) and norm(s[0].value.right.value) == f'nox_speciation.{fr}'
-        if ok:
-            modes.add(norm(s[0].value.right.slice))
-        ctx.ob('C01-R5', af, f'APU {sp_} = APU NOx × speciation.{fr}[mode]', ok, norm(s[0].value) if ok else
-               f'APU {sp_} does not use its own fraction of the APU NOx index', nontrivial=False)
-    ok = len(modes) == 1
-    ctx.ob('C01-R5', af, f'APU fractions all taken at {sorted(modes)}', ok, 'one thrust mode, so the three fractions sum to one' if ok else
-           'APU NO/NO2/HONO fractions come from different thrust modes: they do not sum to one')
-    s = [st for t, st, how in stores_to(af.node) if norm(t) == 'indices[Species.NOx]']
-    ok = len(s) == 1 and norm(s[0].value) == 'apu.NOx_g_per_kg'
-    ctx.ob('C01-R5', af, 'APU NOx index is the one that was speciated', ok, 'apu.NOx_g_per_kg' if ok else 'APU NOx differs from the speciated quantity', nontrivial=False)
-    # LTO: wherever in lto.py the four NOx-family indices are written (a helper of their own, or the producer
-    # itself), NO / NO2 / HONO are the *same* NOx index times their own fraction of one NOx_speciation() result
-    sites = {}
-    for fi_ in prog.module(LTO).functions.values():
-        for t, st, how in stores_to(fi_.node):
-            if isinstance(t, ast.Subscript) and isinstance(t.slice, ast.Attribute) and norm(t.slice.value) == 'Species' \
-                    and t.slice.attr in ('NOx', 'NO', 'NO2', 'HONO') and how == 'assign':
-                sites.setdefault(t.slice.attr, []).append((fi_, st, norm(t.value)))
-    ctx.floor('C01-R5/lto', len(sites), 4, 'NOx-family species written in lto.py')
-    nx = sites.get('NOx', [])
-    lf = nx[0][0]
-    nox_txt = norm(nx[0][1].value) if len(nx) == 1 else None
-
     def speciated(fi_, v, frac):
-        """text of the other factor when v is <something> × <NOx_speciation() result>.<frac>"""
-        ops = _product_operands(fi_.node, v)
+        """(text of the other factor, text of the thrust mode or None) when v is <something> × <NOx_speciation()
+        result>.<frac> or <something> × <NOx_speciation() result>.<frac>[mode] (factors in either order, through
+        locals); None otherwise"""
+        ops = _product_operands(fi_.node, v) if v is not None else None
         if not ops or len(ops) != 2:
             return None
         for a_, b_ in (ops, ops[::-1]):
             for x in _stands_for(fi_.node, a_):
+                mode = None
+                if isinstance(x, ast.Subscript):
+                    x, mode = x.value, norm(x.slice)
+                    x = next((y for y in _stands_for(fi_.node, x) if isinstance(y, ast.Attribute)), x)
                 if isinstance(x, ast.Attribute) and x.attr == frac and any(
                         isinstance(y, ast.Call) and call_name(y).split('.')[-1] == 'NOx_speciation'
                         for y in _stands_for(fi_.node, x.value)):
-                    return norm(b_)
+                    return _same_text(fi_, b_), mode
         return None
 
-    for sp_, fr in (('NO', 'no'), ('NO2', 'no2'), ('HONO', 'hono')):
+    FAMILY = (('NO', 'no'), ('NO2', 'no2'), ('HONO', 'hono'))
+    af = prog.func(APU, 'get_APU_emissions')
+    a_idx = _producer_names(ctx, af, record=False)[0]
+    akv = _keyed_values(prog, af, a_idx)
+    nx = akv.get('NOx', [])
+    nox_txt = _same_text(af, nx[0][0]) if len(nx) == 1 and nx[0][0] is not None else None
+    modes_ = set()
+    for sp_, fr in FAMILY:
+        s = akv.get(sp_, [])
+        r = speciated(af, s[0][0], fr) if len(s) == 1 else None
+        ok = r is not None and r[1] is not None and nox_txt is not None and r[0] == nox_txt
+        if ok:
+            modes_.add(r[1])
+        ctx.ob('C01-R5', af, f'APU {sp_} = APU NOx × speciation.{fr}[mode]', ok, norm(s[0][0]) if ok else
+               f'APU {sp_} does not use its own fraction of the APU NOx index', nontrivial=False, line=(s[0][1].lineno if s else af.node.lineno))
+    ok = len(modes_) == 1
+    ctx.ob('C01-R5', af, f'APU fractions all taken at {sorted(modes_)}', ok, 'one thrust mode, so the three fractions sum to one' if ok else
+           'APU NO/NO2/HONO fractions come from different thrust modes: they do not sum to one')
+    ok = nox_txt is not None
+    ctx.ob('C01-R5', af, 'APU NOx index is the one that was speciated', ok, nox_txt if ok else 'the APU NOx index is not written exactly once', nontrivial=False)
+    # LTO: wherever in lto.py the four NOx-family indices are written (a helper of their own, or the producer
+    # itself), NO / NO2 / HONO are the *same* NOx index times their own fraction of one NOx_speciation() result
+    sites = {}
+    for fi_ in prog.module(LTO).functions.values():
+        maps = {norm(t.value) for t, st, how in stores_to(fi_.node) if isinstance(t, ast.Subscript) and isinstance(t.value, ast.Name)}
+        for mp_ in sorted(maps):
+            for k_, vals in _keyed_values(prog, fi_, mp_).items():
+                if k_ in ('NOx', 'NO', 'NO2', 'HONO'):
+                    sites.setdefault(k_, []).extend((fi_, v_, st_, mp_) for v_, st_ in vals)
+    ctx.floor('C01-R5/lto', len(sites), 4, 'NOx-family species written in lto.py')
+    nx = sites.get('NOx', [])
+    lf = nx[0][0]
+    nox_txt = _same_text(lf, nx[0][1]) if len(nx) == 1 and nx[0][1] is not None else None
+    for sp_, fr in FAMILY:
         s = sites.get(sp_, [])
-        other = speciated(s[0][0], s[0][1].value, fr) if len(s) == 1 else None
-        ok = len(s) == 1 and nox_txt is not None and other == nox_txt and s[0][0] is lf and s[0][2] == nx[0][2]
-        ctx.ob('C01-R5', lf, f'LTO {sp_} = LTO NOx × speciation.{fr}', ok, norm(s[0][1].value) if ok else
-               f'LTO {sp_} does not use its own fraction of the LTO NOx index', nontrivial=False)
+        r = speciated(s[0][0], s[0][1], fr) if len(s) == 1 else None
+        ok = r is not None and r[1] is None and nox_txt is not None and r[0] == nox_txt and s[0][0] is lf and s[0][3] == nx[0][3]
+        ctx.ob('C01-R5', lf, f'LTO {sp_} = LTO NOx × speciation.{fr}', ok, norm(s[0][1]) if ok else
+               f'LTO {sp_} does not use its own fraction of the LTO NOx index', nontrivial=False, line=(s[0][2].lineno if s else lf.node.lineno))
     ok = nox_txt is not None
     ctx.ob('C01-R5', lf, 'LTO NOx index is the one that was speciated', ok, nox_txt if ok else
            'the LTO NOx index is written more than once', nontrivial=False)
+    # BFFM2: the result's NO / NO2 / HONO indices are its NOx index times a per-point array of the species' own
+    # fraction, looked up by one and the same category array
     bf = nm.func('BFFM2_EINOx')
+    brets = [n for n in walk_no_nested(bf.node) if isinstance(n, ast.Return) and n.value is not None]
+    bfields = None
+    if len(brets) == 1 and isinstance(brets[0].value, ast.Call) and call_name(brets[0].value) == 'BFFM2EINOxResult' \
+            and not any(isinstance(a_, ast.Starred) for a_ in brets[0].value.args):
+        order = list(nm.cls('BFFM2EINOxResult').annotated_fields())
+        bfields = {order[i]: a_ for i, a_ in enumerate(brets[0].value.args) if i < len(order)}
+        bfields.update({k.arg: k.value for k in brets[0].value.keywords if k.arg})
+    if bfields is None or not all(k in bfields for k in ('NOxEI', 'NOEI', 'NO2EI', 'HONOEI')):
+        ctx.undecided('C01-R5', bf, 'return BFFM2EINOxResult(…)', 'the returned result is not recognised')
+    nox_txt = _same_text(bf, bfields['NOxEI'])
     cats = set()
-    for prop, fr in (('noProp', 'no'), ('no2Prop', 'no2'), ('honoProp', 'hono')):
-        d = single_def_value(bf.node, prop)
-        ok = d is not None and norm(d) == f'np.array([nox_speciation.{fr}[cat] for cat in thrustCat])'
+    for fld, fr in (('NOEI', 'no'), ('NO2EI', 'no2'), ('HONOEI', 'hono')):
+        ops = _product_operands(bf.node, bfields[fld])
+        prop = None
+        if ops and len(ops) == 2:
+            for a_, b_ in (ops, ops[::-1]):
+                if _same_text(bf, a_) == nox_txt:
+                    prop = _proportion(bf, b_)
+                    if prop is None:
+                        ctx.undecided('C01-R5', bf, f'{fld} = {norm(bfields[fld])[:50]}', f'cannot tell what `{norm(b_)[:40]}` looks up')
+                    break
+        ok = prop is not None and prop[0] == fr
         if ok:
-            cats.add('thrustCat')
-        ctx.ob('C01-R5', bf, f'{prop} from speciation.{fr} indexed by thrustCat', ok, 'own fraction, shared category array' if ok else
-               f'{prop} is not the `{fr}` fraction at the point\'s thrust category')
+            cats.add(prop[1])
+        ctx.ob('C01-R5', bf, f'{fld} = NOxEI × speciation.{fr} at the point\'s thrust category', ok,
+               'own fraction of the returned NOx index' if ok else
+               f'{fld} is not the returned NOx index times the `{fr}` fraction at the point\'s thrust category', line=brets[0].lineno)
+    ok = len(cats) == 1
+    ctx.ob('C01-R5', bf, f'fractions looked up by {sorted(cats)}', ok, 'one category array for the three species' if ok else
+           'NO / NO2 / HONO fractions are looked up by different category arrays: per point they do not add up to one')
+    # the trajectory's NOx family and the constant species take their own field of one result
     tr = prog.func(TR, 'compute_EI_NOx')
-    want = {'NOx': 'bffm2_result.NOxEI', 'NO': 'bffm2_result.NOEI', 'NO2': 'bffm2_result.NO2EI', 'HONO': 'bffm2_result.HONOEI'}
-    for k, v in want.items():
-        s = [st for t, st, how in stores_to(tr.node) if norm(t) == f'indices[Species.{k}]']
-        ok = len(s) == 1 and norm(s[0].value) == v
-        ctx.ob('C01-R5', tr, f'trajectory {k} index = {v}', ok, 'own field' if ok else f'Species.{k} receives `{norm(s[0].value) if s else None}`', nontrivial=False)
-    # constant species: SOx/SO2/SO4 from one EI_SOx result
+    t_idx = next(iter({norm(t.value) for t, st, how in stores_to(tr.node) if isinstance(t, ast.Subscript) and isinstance(t.value, ast.Name)
+                       and isinstance(t.slice, ast.Attribute) and norm(t.slice.value) == 'Species'}), 'indices')
+    tkv = _keyed_values(prog, tr, t_idx)
+    for k, fld in {'NOx': 'NOxEI', 'NO': 'NOEI', 'NO2': 'NO2EI', 'HONO': 'HONOEI'}.items():
+        s = tkv.get(k, [])
+        ok = len(s) == 1 and _field_of_call(tr, s[0][0], fld, 'BFFM2_EINOx')
+        ctx.ob('C01-R5', tr, f'trajectory {k} index = BFFM2 result .{fld}', ok, 'own field' if ok else
+               f'Species.{k} receives `{norm(s[0][0]) if s and s[0][0] is not None else None}`', nontrivial=False)
     cu = prog.func('emissions/utils.py', 'constant_species_values')
-    want = {'SOx': 'sox_result.EI_SOx', 'SO2': 'sox_result.EI_SO2', 'SO4': 'sox_result.EI_SO4', 'CO2': 'fuel.EI_CO2', 'H2O': 'fuel.EI_H2O'}
-    for k, v in want.items():
-        s = [st for t, st, how in stores_to(cu.node) if norm(t) == f'constants[Species.{k}]']
-        ok = len(s) == 1 and norm(s[0].value) == v
-        ctx.ob('C01-R5', cu, f'constant index {k} = {v}', ok, 'own field' if ok else f'Species.{k} receives `{norm(s[0].value) if s else None}`', nontrivial=False)
+    crets = [n.value for n in walk_no_nested(cu.node) if isinstance(n, ast.Return) and isinstance(n.value, ast.Name)]
+    ckv = _keyed_values(prog, cu, crets[0].id if crets else 'constants')
+    for k, (fld, src) in {'SOx': ('EI_SOx', 'EI_SOx'), 'SO2': ('EI_SO2', 'EI_SOx'), 'SO4': ('EI_SO4', 'EI_SOx'),
+                          'CO2': ('EI_CO2', None), 'H2O': ('EI_H2O', None)}.items():
+        s = ckv.get(k, [])
+        ok = len(s) == 1 and (_field_of_call(cu, s[0][0], fld, src) if src else
+                              (isinstance(s[0][0], ast.Attribute) and s[0][0].attr == fld and norm(s[0][0].value) in cu.params))
+        ctx.ob('C01-R5', cu, f'constant index {k} = .{fld} of {"the " + src + "() result" if src else "the fuel"}', ok,
+               'own field' if ok else f'Species.{k} receives `{norm(s[0][0]) if s and s[0][0] is not None else None}`', nontrivial=False)
+
+
+def _same_text(fi, e):
+    """text of what e stands for (followed through single-definition locals to the last name / expression): two
+    expressions with the same text denote the same value"""
+    chain = _stands_for(fi.node, e)
+    last = next((x for x in reversed(chain) if isinstance(x, ast.Name)), chain[-1])
+    return norm(last)
+
+
+def _field_of_call(fi, e, field, func):
+    """e is `<x>.field` where x stands for a call of `func`"""
+    for x in _stands_for(fi.node, e) if e is not None else ():
+        if isinstance(x, ast.Attribute) and x.attr == field:
+            return any(isinstance(y, ast.Call) and call_name(y).split('.')[-1] == func for y in _stands_for(fi.node, x.value))
+    return False
+
+
+def _proportion(fi, e):
+    """(fraction attribute, text of the category array) when e is a per-point array of `<NOx_speciation()
+    result>.<fraction>` looked up by category: np.array / np.asarray / np.fromiter over `[X.f[c] for c in C]`, or
+    `X.f.broadcast(C)`; None otherwise"""
+    def frac_of(x):
+        if isinstance(x, ast.Attribute) and any(isinstance(y, ast.Call) and call_name(y).split('.')[-1] == 'NOx_speciation'
+                                                for y in _stands_for(fi.node, x.value)):
+            return x.attr
+        return None
+    for x in _stands_for(fi.node, e):
+        if isinstance(x, ast.Call) and call_name(x) in ('np.array', 'np.asarray', 'np.fromiter', 'numpy.array', 'numpy.asarray', 'numpy.fromiter') \
+                and x.args and isinstance(x.args[0], (ast.ListComp, ast.GeneratorExp)) and len(x.args[0].generators) == 1:
+            g = x.args[0].generators[0]
+            el = x.args[0].elt
+            if not g.ifs and isinstance(g.target, ast.Name) and isinstance(el, ast.Subscript) and norm(el.slice) == g.target.id:
+                base = next((y for y in _stands_for(fi.node, el.value) if isinstance(y, ast.Attribute)), el.value)
+                f = frac_of(base)
+                if f:
+                    return f, _same_text(fi, g.iter)
+        if isinstance(x, ast.Call) and isinstance(x.func, ast.Attribute) and x.func.attr == 'broadcast' and len(x.args) == 1 and not x.keywords:
+            base = next((y for y in _stands_for(fi.node, x.func.value) if isinstance(y, ast.Attribute)), x.func.value)
+            f = frac_of(base)
+            if f:
+                return f, _same_text(fi, x.args[0])
+    return None
+
+
+def _keyed_values(prog, fi, mp):
+    """Species name -> [(value expression or None, statement)] for everything function fi stores into the species map
+    `mp` under a constant Species key: `mp[Species.K] = V`; one of several unpacked targets (value None unless the
+    right side is a display); `for k, v in TABLE: mp[k] = E(v)` with TABLE a constant table of (Species.K, value)
+    rows - dict display `.items()` or a sequence of pairs, written in place, a local or a module constant - in which
+    case E is returned with v replaced by the row's value."""
+    import copy
+    out = {}
+    fn = fi.node
+
+    class Sub(ast.NodeTransformer):
+        def __init__(self, name, val):
+            self.name, self.val = name, val
+
+        def visit_Name(self, n):
+            return copy.deepcopy(self.val) if n.id == self.name and isinstance(n.ctx, ast.Load) else n
+
+    for t, st, how in stores_to(fn):
+        if not (isinstance(t, ast.Subscript) and norm(t.value) == mp and how in ('assign', 'ann')):
+            continue
+        v = getattr(st, 'value', None)
+        if isinstance(st, ast.Assign) and not any(tg is t for tg in st.targets):
+            tup = next((tg for tg in st.targets if isinstance(tg, (ast.Tuple, ast.List)) and any(el is t for el in tg.elts)), None)
+            if tup is not None and isinstance(v, (ast.Tuple, ast.List)) and len(v.elts) == len(tup.elts):
+                v = v.elts[[el is t for el in tup.elts].index(True)]
+            else:
+                v = None
+        if isinstance(t.slice, ast.Attribute) and norm(t.slice.value) == 'Species':
+            out.setdefault(t.slice.attr, []).append((v, st))
+        elif isinstance(t.slice, ast.Name) and v is not None:
+            for owner, tgt, it in enclosing_iterations(st):
+                if not (isinstance(tgt, (ast.Tuple, ast.List)) and len(tgt.elts) == 2 and all(isinstance(x, ast.Name) for x in tgt.elts)
+                        and tgt.elts[0].id == t.slice.id):
+                    continue
+                im = iterated_mapping(it)
+                rows = _table_rows(prog, fi, im[0], 'dict') if im is not None and im[1] == 'items' else \
+                    (_table_rows(prog, fi, it, 'pairs') if im is None or im[1] == 'keys' else None)
+                for k, c in rows or ():
+                    if isinstance(k, ast.Attribute) and norm(k.value) == 'Species':
+                        vv = Sub(tgt.elts[1].id, c).visit(copy.deepcopy(v))
+                        for nn in ast.walk(vv):
+                            for ch in ast.iter_child_nodes(nn):
+                                if not isinstance(ch, (ast.expr_context, ast.operator, ast.unaryop, ast.cmpop, ast.boolop)):
+                                    ch._parent = nn
+                        out.setdefault(k.attr, []).append((vv, st))
+                break
+    return out
 
 
 def rule_cached_mutables(ctx):
